@@ -1,16 +1,20 @@
 package main
 
-// C03: the REAL engine.Engine with recording mocks. Every observable operation of an instance
-// (Left check, Acquire, Next, Shoot, discarded-sample Report, Release) is performed and logged under one
-// mutex, so the log order is the order of the operations; the Lean driver replays the log through the
-// model's labelled transition system (trace inclusion) and evaluates the Spec on the terminal counters.
+// C03: the REAL engine.Engine, one pool, with logging components (components.go). Every observable operation of an
+// instance (Left check, Acquire, Next, Shoot, discarded-sample Report, Release) is performed and logged under one mutex,
+// so the log order is the order of the operations; the Lean driver replays the log through the model's labelled
+// transition system (trace inclusion, item identities included) and evaluates the Spec on the terminal counters.
+//
+// input keys: inst (tokens of the startup schedule) shared (1 = one shared profile, 0 = rps-per-instance) tokens ammo
+// (-1 = unbounded) discard past (every past-th token is 3 s overdue) shotus sched (once|const|comp|comp2|line|step|paced<ms>)
+// start (once|ramp<ms>) prov (mock|json|jsonlimit|jsonpass|num) aggr (mock|phout)
+// ctl (""|rand:<seed>:<style>|path:<base-36 choices>)
 
 import (
-	"bytes"
 	"context"
 	"fmt"
 	"math/rand"
-	"runtime"
+	"os"
 	"strconv"
 	"strings"
 	"sync"
@@ -19,184 +23,102 @@ import (
 	"verifharness/drv"
 
 	"github.com/yandex/pandora/core"
-	"github.com/yandex/pandora/core/aggregator/netsample"
 	"github.com/yandex/pandora/core/engine"
-	"github.com/yandex/pandora/core/schedule"
 	"github.com/yandex/pandora/lib/monitoring"
 	"go.uber.org/zap"
 )
 
-func goid() int64 {
-	var buf [64]byte
-	n := runtime.Stack(buf[:], false)
-	f := bytes.Fields(buf[:n])
-	id, _ := strconv.ParseInt(string(f[1]), 10, 64)
-	return id
-}
+func atoi(s string) int { v, _ := strconv.Atoi(s); return v }
+func itoa(i int) string { return strconv.Itoa(i) }
 
-type recorder struct {
-	mu   sync.Mutex
-	tids map[int64]int
-	evs  []string
-	uar  bool // ammo used while not held
-	dbl  bool // double release / release of foreign ammo
-}
-
-func (r *recorder) tid() int {
-	g := goid()
-	t, ok := r.tids[g]
-	if !ok {
-		t = len(r.tids)
-		r.tids[g] = t
-	}
-	return t
-}
-
-type ammo struct {
-	id    int
-	state int // 1 held, 2 released
-}
-
-type prov struct {
-	r    *recorder
-	left int // -1 unbounded
-	n    int
-}
-
-func (p *prov) Run(ctx context.Context, _ core.ProviderDeps) error { <-ctx.Done(); return nil }
-func (p *prov) Acquire() (core.Ammo, bool) {
-	p.r.mu.Lock()
-	defer p.r.mu.Unlock()
-	t := p.r.tid()
-	if p.left == 0 {
-		p.r.evs = append(p.r.evs, fmt.Sprintf("e%d", t))
-		return nil, false
-	}
-	if p.left > 0 {
-		p.left--
-	}
-	p.n++
-	p.r.evs = append(p.r.evs, fmt.Sprintf("a%d", t))
-	return &ammo{id: p.n, state: 1}, true
-}
-func (p *prov) Release(a core.Ammo) {
-	p.r.mu.Lock()
-	defer p.r.mu.Unlock()
-	am, ok := a.(*ammo)
-	if !ok || am.state != 1 {
-		p.r.dbl = true
-	} else {
-		am.state = 2
-	}
-	p.r.evs = append(p.r.evs, fmt.Sprintf("r%d", p.r.tid()))
-}
-
-type sched struct {
-	r     *recorder
-	inner core.Schedule
-	past  int
-	drawn int
-}
-
-func (s *sched) Start(t time.Time) { s.inner.Start(t) }
-func (s *sched) Next() (time.Time, bool) {
-	s.r.mu.Lock()
-	defer s.r.mu.Unlock()
-	tx, ok := s.inner.Next()
-	t := s.r.tid()
-	if ok {
-		s.r.evs = append(s.r.evs, fmt.Sprintf("n%d", t))
-		s.drawn++
-		if s.past > 0 && s.drawn%s.past == 0 {
-			tx = tx.Add(-3 * time.Second) // 3 s overdue: discarded when discard_overflow is on
-		}
-	} else {
-		s.r.evs = append(s.r.evs, fmt.Sprintf("x%d", t))
-	}
-	return tx, ok
-}
-func (s *sched) Left() int {
-	s.r.mu.Lock()
-	defer s.r.mu.Unlock()
-	l := s.inner.Left()
-	s.r.evs = append(s.r.evs, fmt.Sprintf("c%d:%d", s.r.tid(), l))
-	return l
-}
-
-type gun struct {
-	r    *recorder
-	shot time.Duration
-}
-
-func (g *gun) Bind(core.Aggregator, core.GunDeps) error { return nil }
-func (g *gun) Shoot(a core.Ammo) {
-	g.r.mu.Lock()
-	am, ok := a.(*ammo)
-	if !ok || am.state != 1 {
-		g.r.uar = true
-	}
-	g.r.evs = append(g.r.evs, fmt.Sprintf("s%d", g.r.tid()))
-	g.r.mu.Unlock()
-	if g.shot > 0 {
-		time.Sleep(g.shot)
-	}
-	g.r.mu.Lock()
-	if ok && am.state != 1 {
-		g.r.uar = true
-	}
-	g.r.mu.Unlock()
-}
-
-type aggr struct{ r *recorder }
-
-func (a *aggr) Run(ctx context.Context, _ core.AggregatorDeps) error { <-ctx.Done(); return nil }
-func (a *aggr) Report(s core.Sample) {
-	if ns, ok := s.(*netsample.Sample); ok && ns.Tags() == netsample.DiscardedShootTag {
-		a.r.mu.Lock()
-		a.r.evs = append(a.r.evs, fmt.Sprintf("d%d", a.r.tid()))
-		a.r.mu.Unlock()
-	}
-}
-
-func mkSchedule(kind string, tokens int) core.Schedule {
-	switch kind {
-	case "const": // tokens spread over 20 ms
-		if tokens == 0 {
-			return schedule.NewConst(0, 20*time.Millisecond)
-		}
-		return schedule.NewConst(float64(tokens)*50+1, 20*time.Millisecond)
-	case "comp":
-		a := tokens / 2
-		return schedule.NewComposite(schedule.NewOnce(int64(a)), schedule.NewConst(0, time.Millisecond), schedule.NewOnce(int64(tokens-a)))
-	default:
-		return schedule.NewOnce(int64(tokens))
-	}
-}
+var (
+	cacheMu sync.Mutex
+	cache   = map[string]string{} // observations of runs already made while generating (systematic enumeration)
+)
 
 func run(input string) string {
+	cacheMu.Lock()
+	if o, ok := cache[input]; ok {
+		delete(cache, input)
+		cacheMu.Unlock()
+		return o
+	}
+	cacheMu.Unlock()
+	return runReal(input)
+}
+
+func runReal(input string) string {
 	m := drv.KV(input)
-	atoi := func(k string) int { v, _ := strconv.Atoi(m[k]); return v }
-	rec := &recorder{tids: map[int64]int{}}
-	tokens := atoi("tokens")
-	// the real schedule may round (const): learn the exact token count from a twin
-	twin := mkSchedule(m["sched"], tokens)
-	exact := twin.Left()
-	p := &prov{r: rec, left: atoi("ammo")}
+	rec := newRecorder()
+	tokens := atoi(m["tokens"])
+	inst := atoi(m["inst"])
+	// the real schedule may round (const, line, step): learn the exact token count from a twin
+	exact := mkSchedule(m["sched"], tokens).Left()
+	cap := mkStartup(m["start"], inst).Left()
+	p := mkProvider(rec, m["prov"], atoi(m["ammo"]))
+	var ids map[any]int
+	if wp, ok := p.(*wprov); ok {
+		ids = wp.ids
+	}
+	ag, err := mkAggregator(rec, m["aggr"])
+	if err != nil {
+		return "res=err:aggregator"
+	}
 	metrics := engine.Metrics{Request: &monitoring.Counter{}, Response: &monitoring.Counter{},
 		InstanceStart: &monitoring.Counter{}, InstanceFinish: &monitoring.Counter{}}
+	shot := time.Duration(atoi(m["shotus"])) * time.Microsecond
 	conf := engine.Config{Pools: []engine.InstancePoolConfig{{
-		Provider:        p,
-		Aggregator:      &aggr{r: rec},
-		NewGun:          func() (core.Gun, error) { return &gun{r: rec, shot: time.Duration(atoi("shotus")) * time.Microsecond}, nil },
-		RPSPerInstance:  m["shared"] == "0",
-		NewRPSSchedule:  func() (core.Schedule, error) { return &sched{r: rec, inner: mkSchedule(m["sched"], tokens), past: atoi("past")}, nil },
-		StartupSchedule: schedule.NewOnce(int64(atoi("inst"))),
+		Provider:   p,
+		Aggregator: ag,
+		NewGun: func() (core.Gun, error) {
+			return &gun{r: rec, shot: shot, report: m["aggr"] == "phout", ids: ids}, nil
+		},
+		RPSPerInstance: m["shared"] == "0",
+		NewRPSSchedule: func() (core.Schedule, error) {
+			return &sched{r: rec, inner: mkSchedule(m["sched"], tokens), past: atoi(m["past"])}, nil
+		},
+		StartupSchedule: mkStartup(m["start"], inst),
 		DiscardOverflow: m["discard"] == "1",
 	}}}
+	var c *ctl
+	if spec := m["ctl"]; spec != "" {
+		c = &ctl{r: rec, wake: make(chan struct{}, 1), parked: map[int]chan struct{}{}, resting: map[int]bool{},
+			started: func() int { return int(metrics.InstanceStart.Get()) }, stop: make(chan struct{}),
+			wait: 300 * time.Microsecond, last: -1}
+		parts := strings.Split(spec, ":")
+		switch parts[0] {
+		case "path":
+			c.path = []int{}
+			if len(parts) > 1 {
+				for _, ch := range parts[1] {
+					c.path = append(c.path, strings.IndexRune(b36, ch))
+				}
+			}
+			c.wait = 20 * time.Millisecond
+			if m["start"] == "" || m["start"] == "once" {
+				c.first = cap
+			}
+		default: // rand:<seed>:<style>
+			seed, style := int64(1), 0
+			if len(parts) > 1 {
+				seed, _ = strconv.ParseInt(parts[1], 10, 64)
+			}
+			if len(parts) > 2 {
+				style = atoi(parts[2])
+			}
+			c.rng = rand.New(rand.NewSource(seed))
+			c.style = style
+		}
+		rec.ctl = c
+		go c.loop()
+	}
 	eng := engine.New(zap.NewNop(), metrics, conf)
 	ctx, cancel := context.WithTimeout(context.Background(), 15*time.Second)
 	defer cancel()
-	err := eng.Run(ctx)
+	err = eng.Run(ctx)
+	if c != nil {
+		c.halt()
+	}
 	eng.Wait()
 	res := "ok"
 	if err != nil {
@@ -210,45 +132,221 @@ func run(input string) string {
 		}
 		return 0
 	}
-	return fmt.Sprintf("res=%s exact=%d started=%d finished=%d req=%d resp=%d uar=%d dbl=%d log=%s", res, exact,
-		metrics.InstanceStart.Get(), metrics.InstanceFinish.Get(), metrics.Request.Get(), metrics.Response.Get(),
-		b(rec.uar), b(rec.dbl), strings.Join(rec.evs, ","))
+	mn, mx := rec.relMinMax()
+	ctlObs := ""
+	if c != nil {
+		ctlObs = fmt.Sprintf(" partial=%d br=%s", c.partial, string(c.br))
+	}
+	return fmt.Sprintf("res=%s exact=%d cap=%d started=%d finished=%d req=%d resp=%d uar=%d dbl=%d relmin=%d relmax=%d%s log=%s",
+		res, exact, cap, metrics.InstanceStart.Get(), metrics.InstanceFinish.Get(), metrics.Request.Get(), metrics.Response.Get(),
+		b(rec.uar), b(rec.dbl), mn, mx, ctlObs, strings.Join(rec.evs, ","))
 }
 
-func gen(r *rand.Rand, tier string) []string {
+// ---------------------------------------------------------------- systematic enumeration of interleavings
+
+// dfs runs the real engine under the controlled scheduler along every choice path (depth first, lexicographic), at most
+// maxRuns runs. Returns the inputs (their observations are cached) and whether the tree was exhausted.
+func dfs(base string, maxRuns int) ([]string, bool) {
 	var out []string
+	path := []int{}
+	for runs := 0; runs < maxRuns; runs++ {
+		var sb strings.Builder
+		for _, k := range path {
+			sb.WriteByte(b36[k])
+		}
+		in := base + " ctl=path:" + sb.String()
+		obs := runReal(in)
+		cacheMu.Lock()
+		cache[in] = obs
+		cacheMu.Unlock()
+		out = append(out, in)
+		br := drv.KV(obs)["br"]
+		j := len(br)/2 - 1
+		for j >= 0 && strings.IndexByte(b36, br[2*j+1])+1 >= strings.IndexByte(b36, br[2*j]) {
+			j--
+		}
+		if j < 0 {
+			return out, true
+		}
+		path = path[:0]
+		for i := 0; i < j; i++ {
+			path = append(path, strings.IndexByte(b36, br[2*i+1]))
+		}
+		path = append(path, strings.IndexByte(b36, br[2*j+1])+1)
+	}
+	return out, false
+}
+
+var dfsComplete, dfsCapped int
+
+func dfsAll(bases []string, maxRuns int) []string {
+	res := make([][]string, len(bases))
+	done := make([]bool, len(bases))
+	var wg sync.WaitGroup
+	sem := make(chan struct{}, 10)
+	for i, b := range bases {
+		wg.Add(1)
+		go func(i int, b string) {
+			defer wg.Done()
+			sem <- struct{}{}
+			res[i], done[i] = dfs(b, maxRuns)
+			<-sem
+		}(i, b)
+	}
+	wg.Wait()
+	var out []string
+	defer func() {
+		fmt.Fprintf(os.Stderr, "c03: enumeration: %d configurations, %d exhausted, %d cut at %d runs, %d runs\n", len(bases), dfsComplete, dfsCapped, maxRuns, len(out))
+	}()
+	for i := range res {
+		out = append(out, res[i]...)
+		if done[i] {
+			dfsComplete++
+		} else {
+			dfsCapped++
+		}
+	}
+	return out
+}
+
+// ---------------------------------------------------------------- generator
+
+func line(inst, shared, tokens, ammo, disc, past, shot int, sched string, extra string) string {
+	s := fmt.Sprintf("inst=%d shared=%d tokens=%d ammo=%d discard=%d past=%d shotus=%d sched=%s", inst, shared, tokens, ammo, disc, past, shot, sched)
+	if extra != "" {
+		s += " " + extra
+	}
+	return s
+}
+
+func pick[T any](r *rand.Rand, xs ...T) T { return xs[r.Intn(len(xs))] }
+
+func gen(r *rand.Rand, tier string) []string {
+	thorough := tier == "thorough"
+	var out []string
+	kinds := []string{"once", "const", "comp", "line", "step", "comp2"}
+	provs := []string{"mock", "mock", "json", "jsonlimit", "jsonpass", "num"}
+	aggrs := []string{"mock", "mock", "phout"}
+
+	// 1. the matrix: instances x shared/per-instance x tokens x ammo bound x discard, everything else random
 	insts := []int{1, 2, 3, 8}
 	toks := []int{0, 1, 5, 17}
 	ammos := []int{-1, 0, 3, 5, 40}
-	if tier == "thorough" {
+	if thorough {
 		insts = []int{1, 2, 3, 5, 8, 32}
 		toks = []int{0, 1, 2, 5, 17, 40}
 		ammos = []int{-1, 0, 1, 3, 5, 17, 40, 100}
 	}
-	for _, inst := range insts {
-		for _, shared := range []int{0, 1} {
-			for _, t := range toks {
-				for _, a := range ammos {
-					for _, disc := range []int{0, 1} {
-						kind := []string{"once", "const", "comp"}[r.Intn(3)]
-						past := []int{0, 2, 3}[r.Intn(3)]
-						shot := []int{0, 0, 30, 200}[r.Intn(4)]
-						out = append(out, fmt.Sprintf("inst=%d shared=%d tokens=%d ammo=%d discard=%d past=%d shotus=%d sched=%s", inst, shared, t, a, disc, past, shot, kind))
+	reps := 1
+	if thorough {
+		reps = 3
+	}
+	for rep := 0; rep < reps; rep++ {
+		for _, inst := range insts {
+			for _, shared := range []int{0, 1} {
+				for _, t := range toks {
+					for _, a := range ammos {
+						for _, disc := range []int{0, 1} {
+							extra := "prov=" + pick(r, provs...) + " aggr=" + pick(r, aggrs...)
+							if r.Intn(3) == 0 {
+								extra += " start=ramp" + itoa(pick(r, 1, 2, 5))
+							}
+							if r.Intn(3) == 0 {
+								extra += fmt.Sprintf(" ctl=rand:%d:%d", r.Intn(1000000), r.Intn(3))
+							}
+							out = append(out, line(inst, shared, t, a, disc, pick(r, 0, 1, 2, 3), pick(r, 0, 0, 30, 200), pick(r, kinds...), extra))
+						}
 					}
 				}
 			}
 		}
 	}
+
+	// 2. random cells
 	n := 150
-	if tier == "thorough" {
-		n = 3000
+	if thorough {
+		n = 4000
 	}
 	for i := 0; i < n; i++ {
-		out = append(out, fmt.Sprintf("inst=%d shared=%d tokens=%d ammo=%d discard=%d past=%d shotus=%d sched=%s",
-			1+r.Intn(12), r.Intn(2), r.Intn(30), []int{-1, r.Intn(40)}[r.Intn(2)], r.Intn(2), r.Intn(4), []int{0, 20, 100}[r.Intn(3)],
-			[]string{"once", "const", "comp"}[r.Intn(3)]))
+		extra := "prov=" + pick(r, provs...) + " aggr=" + pick(r, aggrs...)
+		if r.Intn(3) == 0 {
+			extra += " start=ramp" + itoa(pick(r, 1, 2, 5))
+		}
+		if r.Intn(2) == 0 {
+			extra += fmt.Sprintf(" ctl=rand:%d:%d", r.Intn(1000000), r.Intn(3))
+		}
+		out = append(out, line(1+r.Intn(12), r.Intn(2), r.Intn(30), pick(r, -1, r.Intn(40)), r.Intn(2), r.Intn(4), pick(r, 0, 20, 100), pick(r, kinds...), extra))
 	}
-	return out
+
+	// 3. a paced profile with the startup ramp still running when the ammo ends (and the other way round):
+	//    instances hold an item and sleep in Wait while others run out of ammo / finish the schedule / are being started
+	n = 40
+	if thorough {
+		n = 400
+	}
+	for i := 0; i < n; i++ {
+		inst := 2 + r.Intn(3)
+		tokens := 4 + r.Intn(9)
+		am := 1 + r.Intn(tokens-1) // bounded, fewer than the tokens of one profile
+		if r.Intn(4) == 0 {
+			am = pick(r, -1, tokens, tokens+2)
+		}
+		extra := fmt.Sprintf("start=ramp%d prov=%s aggr=%s", pick(r, 3, 5, 8, 12), pick(r, provs...), pick(r, aggrs...))
+		out = append(out, line(inst, r.Intn(2), tokens, am, r.Intn(2), pick(r, 0, 0, 3), pick(r, 0, 100, 1500), "paced"+itoa(pick(r, 2, 4, 7, 11)), extra))
+	}
+
+	// 4. controlled scheduling, seeded: many interleavings of the same small configuration
+	n = 120
+	if thorough {
+		n = 6000
+	}
+	for i := 0; i < n; i++ {
+		inst := 2 + r.Intn(4)
+		tokens := r.Intn(7)
+		extra := fmt.Sprintf("prov=%s aggr=%s ctl=rand:%d:%d", pick(r, "mock", "mock", "json", "num"), pick(r, aggrs...), r.Intn(1000000), r.Intn(3))
+		out = append(out, line(inst, r.Intn(2), tokens, pick(r, -1, r.Intn(8), tokens, tokens+1), r.Intn(2), pick(r, 0, 0, 1, 2), 0, pick(r, "once", "once", "comp"), extra))
+	}
+
+	// 5. systematic enumeration: EVERY interleaving (at the granularity of the logged operations) of tiny pools
+	var bases []string
+	maxRuns := 120
+	if thorough {
+		maxRuns = 4000
+	}
+	for _, shared := range []int{1, 0} {
+		for _, t := range []int{0, 1} {
+			for _, a := range []int{-1, 0, 1, 2} {
+				for _, pd := range [][2]int{{0, 0}, {1, 1}} { // (past, discard): all fired / all discarded
+					if !thorough && (t == 0 && a > 0 || pd[0] == 1 && a == 0) {
+						continue
+					}
+					bases = append(bases, line(2, shared, t, a, pd[1], pd[0], 0, "once", ""))
+				}
+			}
+		}
+	}
+	if thorough {
+		// three instances / two tokens: too many interleavings to finish, explored up to the cap
+		for _, shared := range []int{1, 0} {
+			for _, a := range []int{-1, 1, 2} {
+				bases = append(bases, line(3, shared, 1, a, 0, 0, 0, "once", ""))
+				bases = append(bases, line(2, shared, 2, a, 1, 2, 0, "once", ""))
+				bases = append(bases, line(2, shared, 2, a, 0, 0, 0, "once", "prov=json"))
+			}
+		}
+	}
+	out = append(out, dfsAll(bases, maxRuns)...)
+
+	// distinct lines only
+	seen := map[string]bool{}
+	var uniq []string
+	for _, l := range out {
+		if !seen[l] {
+			seen[l] = true
+			uniq = append(uniq, l)
+		}
+	}
+	return uniq
 }
 
 func main() {
@@ -264,17 +362,32 @@ func main() {
 			if m["shared"] == "0" {
 				c = "per-instance"
 			}
-			if strings.Contains(o["log"], "x") {
-				c += "/unfired"
+			how := "plain"
+			switch {
+			case strings.HasPrefix(m["ctl"], "path"):
+				how = "enumerated"
+			case strings.HasPrefix(m["ctl"], "rand"):
+				how = "ctl-random"
+			case strings.HasPrefix(m["start"], "ramp"):
+				how = "ramp"
 			}
-			if strings.Contains(o["log"], "d") {
-				c += "/discard"
+			if p := m["prov"]; (p != "" && p != "mock") || m["aggr"] == "phout" {
+				how += "+real"
 			}
-			if strings.Contains(o["log"], "e") {
-				c += "/out-of-ammo"
+			what := "fired"
+			switch {
+			case strings.Contains(o["log"], "x"):
+				what = "unfired"
+			case o["started"] != o["cap"]:
+				what = "start-cut"
+			case strings.Contains(o["log"], "e"):
+				what = "out-of-ammo"
+			case strings.Contains(o["log"], "d"):
+				what = "discard"
 			}
+			c += "/" + how + "/" + what
 			return c
 		},
-		Rule: "real engine.Engine, one pool, matrix instances x shared/per-instance x tokens x ammo bound x discard_overflow with random schedule kind (once/const/composite), overdue tokens and shot duration, plus random cells; non-trivial = at least one event logged; distinct input lines",
+		Rule: "real engine.Engine, one pool: matrix instances x shared/per-instance x tokens x ammo bound x discard_overflow with random profile shape (once/const/composite/line/step), overdue tokens, shot duration, startup (once/ramp), provider (mock/real JSON DecodeProvider+AmmoQueue/real Num) and aggregator (mock/real phout); random cells; paced profiles with a startup ramp that is still running when ammo ends; seeded controlled scheduling (random/sticky/lock-step choice of the next instance operation); exhaustive enumeration of all operation interleavings of 2-instance pools with <=1 token; non-trivial = at least one event logged; distinct input lines",
 	})
 }
